@@ -21,6 +21,7 @@ EXPLANATION = (
 def run(R):
     R.extra["explanation"] = EXPLANATION
     ro = Roles(R)
+    stack_not_aliased(R, ro, "C08.UNWIND.SCOPE")
     common.active_task_pair(R, ro, "C08.ACTIVE-PAIR")
     common.unwind_rule(R, ro, "C08.UNWIND")
     common.typed_stack_elements(R, ro, "C08.UNWIND-TYPED")
@@ -138,6 +139,26 @@ def reset_rules(R, ro):
         R.check(p2 is None and raises, "C08.RESET", drain.qualname + ":guard-raises", R.site(drain, g.ast),
                 "exceeding the stack limit raises RuntimeError", "exceeding the stack limit no longer raises RuntimeError on every path",
                 dcfg.fmt_path(p2) if p2 else None)
+        # reset() also clears the active task, but the limit can be hit inside a synchronous call made by a task: that task is still
+        # executing when the RuntimeError reaches it (it may handle it and go on) - the active task is put back after the reset
+        rs_fn = ro.TS.methods.get("reset")
+        clears_active = rs_fn is not None and any(attr == "active_task" for recv, attr, nd in q.attr_stores(rs_fn.node) if recv == "self")
+        if clears_active and resets:
+            restores = []
+            for x in dcfg.nodes:
+                if x.kind == "stmt" and isinstance(x.ast, ast.Assign) and any(q.src(t) == "self.active_task" for t in x.ast.targets) and isinstance(x.ast.value, ast.Name):
+                    vals_ = common.assigned_values(drain.node, x.ast.value.id)
+                    svn = [y for y in dcfg.nodes if y.kind == "stmt" and isinstance(y.ast, ast.Assign) and any(isinstance(t, ast.Name) and t.id == x.ast.value.id for t in y.ast.targets)]
+                    if vals_ and all(k_ == "expr" and q.src(v_) == "self.active_task" for k_, v_ in vals_) and svn \
+                            and all(dcfg.find_path(svn, [r_], N) is not None and dcfg.find_path([r_], svn, N, cut_nodes=[n for n in dcfg.nodes if n.kind == "loop"]) is None for r_ in resets):
+                        restores.append(x)
+            after = [e.dst for r_ in resets for e in dcfg.out_edges(r_.id, N) if e.label != "exc"]
+            pa = dcfg.find_path(after, rt_raises, N, cut_nodes=restores)
+            R.check(pa is None and restores, "C08.RESET", drain.qualname + ":guard-keeps-active", R.site(drain, g.ast),
+                    "the task that was active before the reset (the caller of a nested synchronous call, or none) is active again when RuntimeError is raised",
+                    "reset() clears active_task and the stack-limit branch does not put it back: a task that made the synchronous call which ran away, and that "
+                    "handles the RuntimeError, goes on with get_active_task() returning None - contexts it enters afterwards are not registered with it",
+                    dcfg.fmt_path(pa) if pa else None)
 
 
 def batch_residue(R, ro, rule="C08.UNWIND.BATCHES"):
@@ -204,6 +225,29 @@ def getters(R, ro):
                 "%s() no longer reads the per-thread scheduler state" % fn)
 
 
+def stack_not_aliased(R, ro, rule):
+    """The task stack is a field that methods of the scheduler replace (reset() binds a new list; unwinding may rebind it): a local
+    bound to the list object and used across calls goes on working on the old list after such a replacement - tasks it pushes or pops
+    are not the scheduler's any more, and what the replacement kept stays on the scheduler for ever.  (A local that is only read before
+    anything else can run has been replaced by the field read by the normaliser and does not count.)"""
+    ts = ro.TS
+    sf = ro.stack_field()
+    rebinders = sorted(set(m.name for m in ts.methods.values() if m.name != "__init__" for n in q.scope_nodes(m.node)
+                           if isinstance(n, ast.Assign) and any(q.src(t) == "self." + sf or (isinstance(t, ast.Tuple) and any(q.src(e) == "self." + sf for e in t.elts)) for t in n.targets)))
+    R.need(rebinders, "idiom: no method rebinds self.%s (reset() used to)" % sf)
+    n = 0
+    for m in ts.methods.values():
+        for st in q.scope_nodes(m.node):
+            if isinstance(st, ast.Assign) and q.src(st.value) == "self." + sf and any(isinstance(t, ast.Name) for t in st.targets):
+                n += 1
+                R.violation(rule, "%s:alias:%s" % (m.qualname, q.src(st.targets[0])), R.site(m, st),
+                            "%s keeps working on `%s`, a local bound to the list object in self.%s, across calls, while %s rebind%s the field: after a "
+                            "nested computation was unwound (or the scheduler reset) the local is a different list than the scheduler's - the loop drains a "
+                            "dead list and the scheduler keeps the outer tasks for ever" % (m.qualname, q.src(st.targets[0]), sf, ", ".join(rebinders), "s" if len(rebinders) == 1 else ""))
+    if not n:
+        R.ok(rule, R.site(ts.module, ts.node), "no method works on a local alias of self.%s across calls (rebound by %s)" % (sf, ", ".join(rebinders)))
+
+
 def active_own(R, ro, rule="C08.ACTIVE-OWN"):
     """self.active_task is written only by the continue-task method (save/set/restore) and by
     reset(): any other writer changes what get_active_task() reports while a task's code runs."""
@@ -218,6 +262,27 @@ def active_own(R, ro, rule="C08.ACTIVE-OWN"):
             if rc is not None and not any(c is not None and c.is_subclass_of(ro.TS) for c in rc):
                 continue
             n += 1
+            st_ = q.enclosing_stmt(node)
+            # putting back what was read from the same field around a reset() that clears it (the stack-limit branch keeps the task that
+            # made the synchronous call active) leaves the reported task unchanged: not a writer in the sense of this rule
+            if recv == "self" and isinstance(st_, ast.Assign) and isinstance(st_.value, ast.Name) and f.qualname not in allowed:
+                vals_ = common.assigned_values(f.node, st_.value.id)
+                if vals_ and all(k_ == "expr" and q.src(v_) == "self.active_task" for k_, v_ in vals_):
+                    cfg_ = cfg_of(f)
+                    saves = [x for x in cfg_.nodes if x.kind == "stmt" and isinstance(x.ast, ast.Assign) and any(isinstance(t, ast.Name) and t.id == st_.value.id for t in x.ast.targets)]
+                    here = cfg_.nodes_for(st_)
+                    between_ok = True
+                    for x in cfg_.nodes:
+                        # anything between the save and the restore, other than self.reset(), that could change the field?
+                        if x in saves or x in here:
+                            continue
+                        if cfg_.find_path(saves, [x], N) is not None and cfg_.find_path([x], here, N, cut_nodes=saves) is not None:
+                            calls_ = [cc for cc in kit.node_calls(x)]
+                            if any(q.call_name(cc) != "self.reset" for cc in calls_) or (x.kind == "stmt" and isinstance(x.ast, (ast.Assign, ast.AugAssign)) and x not in saves and not calls_ and "active_task" in q.src(x.ast)):
+                                between_ok = False
+                    if saves and between_ok:
+                        R.ok(rule, R.site(f, node), "%s puts back the active task it read before reset()" % f.name)
+                        continue
             R.check(f.qualname in allowed, rule, "%s:%s" % (f.qualname, q.stmt_key(q.enclosing_stmt(node))), R.site(f, node),
                     "%s writes the scheduler's active_task (the save/set/restore pair or reset)" % f.name,
                     "%s overwrites the scheduler's active_task outside the save/set/restore pair of the continue-task method: the task whose code is running "
